@@ -625,7 +625,17 @@ func (e *e1Engine) isTarget(ins ssa.Instruction, t Target, lits []Lit) bool {
 			return true
 		}
 		if m, ok := ins.(*ssa.MapUpdate); ok {
-			return e.re(t.Re).MatchString(desc(m.Map, maxDepth) + "[" + desc(m.Key, 3) + "]")
+			d := desc(m.Map, maxDepth) + "[" + desc(m.Key, maxDepth) + "]"
+			if t.ReNot != "" && e.re(t.ReNot).MatchString(d) {
+				return false
+			}
+			if !e.re(t.Re).MatchString(d) {
+				return false
+			}
+			if t.ValNot != "" && e.re(t.ValNot).MatchString(desc(m.Value, maxDepth)) {
+				return false
+			}
+			return true
 		}
 	}
 	return false
